@@ -1,0 +1,9 @@
+//go:build verif
+
+package sync
+
+// verifClosedDownloadCh: with the verif tag the driver stops selecting on a
+// closed download channel (a nil channel blocks) instead of spinning on it until
+// the next reorg. Observable behaviour is the same; a deterministic simulator
+// needs every idle goroutine to block.
+func verifClosedDownloadCh(ch chan EVMBlock) chan EVMBlock { return nil }
